@@ -55,7 +55,7 @@ PROPS = {
     },
     "C14": {
         "ops": [("fill2", FF, 10000, 300000), ("fill2", MIN, 3000, 60000)],
-        "explanation": "stage theorems (a force-broken piece is a fixed point; small words pass through) — assembly pending; L2: fill(fill(t)) = fill(t) on the implementation under the property's option conditions",
+        "explanation": "theorems C14_first_fit (fill(fill t) = fill t for first-fit, empty indents, ASCII separator, built-in splitters, break_words on/off, every width, both line endings, every text) and C14_optimal_fit (reference oracle, no overflowing line, ESC-free text); the Unicode-separator half cannot be proved against an abstract linebreak oracle and is checked by L2 only; L2: fill(fill(t)) = fill(t) on the implementation under the property's option conditions",
         "assumptions": ["reading of the optimal-fit clause as in DESIGN.md §6/C14"],
     },
     "C03": {
